@@ -36,7 +36,7 @@ def plan(tier):
 def floors(tier):
     f = {"nontrivial": 50, "held:main": 60, "held:catalogue": 20, "counter:cost_checks": 250, "counter:residual_checks": 100,
          "counter:costIV_checks": 60, "counter:zero_cost_clause": 4, "class:obs-permuted": 15, "class:obs-string": 10,
-         "class:target_param": 20, "class:weights": 6, "class:x0-ndarray-shared": 40, "counter:aliasing_checks": 60, "counter:sibling_checks": 40,
+         "class:target_param": 20, "class:weights": 6, "class:x0-ndarray-shared": 40, "counter:aliasing_checks": 60, "counter:residualIV_checks": 200, "class:target_state": 40, "counter:sibling_checks": 40,
          "counter:input_mutation_checks": 100, "class:spread-matrix": 8, "class:single-state": 3}
     for k in RL.KINDS:
         f["class:" + k] = 8
@@ -53,7 +53,7 @@ def run_case(rng, idx, tier, lane, ctx):
     LC.choose_observation(rng, c, rs)
     if c.kind == "Normal":
         c.weight_arg, c.weights = None, None     # weighted Normal has no stated formula (left to C07's consistency check)
-    LC.choose_targets(rng, c, allow_param=True, allow_state=False)
+    LC.choose_targets(rng, c, allow_param=True, allow_state=True)
     cls = list(c.classes) + [c.kind]
     if c.obs_idx != sorted(c.obs_idx):
         cls.append("obs-permuted")
@@ -131,42 +131,77 @@ def run_case(rng, idx, tier, lane, ctx):
                     got_shape=list(res.shape), max_error=float(np.max(np.abs(res - expres))) if res.shape == expres.shape else None)
         except Exception as e:
             bad("residual raised", point=label, error=short_exc(e))
-    # ---- costIV: free initial values as well
-    x0b = [v * rng.uniform(0.9, 1.1) for v in c.x0]
-    r3 = LC.ref_solution(c, x0=x0b, crosscheck=False, amplification=False)
-    if r3.ok:
+    # ---- costIV: free initial values as well.  A SEQUENCE of calls on the same object: first point, then only the initial values move,
+    # then only the parameters move (what a trajectory cache keyed on the wrong thing would get wrong)
+    sidx = [c.states.index(s_) for s_ in (c.target_state if c.target_state is not None else c.states)]
+    if c.target_state is not None:
+        cls.append("target_state")
+    thA = list(c.theta)
+    thB = LC.full_theta(c, [v * rng.uniform(0.85, 1.2) for v in LC.free_theta(c, c.theta)])
+    xA = [v * rng.uniform(0.9, 1.1) for v in c.x0]
+    xB = [v * rng.uniform(0.9, 1.1) for v in c.x0]
+    arg = None
+    exp = tol = None
+    for label, thp, xp in (("first", thA, xA), ("only initial values moved", thA, xB), ("only parameters moved", thB, xB)):
+        x0eff = list(c.x0)
+        for i in sidx:
+            x0eff[i] = xp[i]
+        r3 = LC.ref_solution(c, theta=thp, x0=x0eff, crosscheck=False, amplification=False)
+        if not r3.ok:
+            continue
         yhat = r3.x[:, c.obs_idx]
-        if not (c.kind in ("Poisson", "Gamma", "NegBinom") and np.min(yhat) <= 1e-6):
-            exp = LC.ref_cost(c, yhat)
-            g = float(np.sum(np.abs(RL.dcost(c.kind, c.y, yhat, c.spread, c.weights))))
-            tol = 1e-6 * (1 + abs(exp)) + g * tol_x
-            arg = np.array(LC.free_theta(c, c.theta) + list(x0b), dtype=float)
-            try:
-                with contextlib.redirect_stdout(io.StringIO()), np.errstate(all="ignore"):
-                    got = obj.costIV(arg)
-                counters["costIV_checks"] += 1
-                if not abs(float(got) - exp) <= tol:
-                    bad("costIV differs from the loss of the solution started at the supplied initial values", got=float(got), expected=exp, tolerance=tol)
-                # ---- the loss object must not share memory with the caller's data: the caller scribbles over the vector it passed to
-                # costIV; cost(theta) must still be the loss for initial values that were actually supplied (the ones given to costIV, or
-                # the constructor's), never something derived from the scribble
-                arg[:] = arg * 3.0 + 1.0
-                free0 = np.array(LC.free_theta(c, c.theta), dtype=float)
-                with contextlib.redirect_stdout(io.StringIO()), np.errstate(all="ignore"):
-                    again = float(obj.cost(free0))
-                counters["aliasing_checks"] = counters.get("aliasing_checks", 0) + 1
-                exp0 = LC.ref_cost(c, rs.x[:, c.obs_idx])
-                ok_b = abs(again - exp) <= tol
-                ok_0 = abs(again - exp0) <= 1e-6 * (1 + abs(exp0)) + float(np.sum(np.abs(RL.dcost(c.kind, c.y, rs.x[:, c.obs_idx], c.spread, c.weights)))) * tol_x
-                if not (ok_b or ok_0):
-                    bad("after the caller overwrote the vector it had passed to costIV, cost(theta) is the loss for neither the supplied nor the "
-                        "original initial values (the loss object aliases caller memory)", got=again, expected_for_supplied_x0=exp, expected_for_original_x0=exp0)
-            except Exception as e:
-                if type(e).__name__ == "InputError" and "same length as the number of parameters" in str(e):
-                    # explicit refusal of an ambiguous length (len(target_param) + nS == nP): an honest refusal, not a wrong value
-                    counters["costIV_refused_ambiguous_length"] = counters.get("costIV_refused_ambiguous_length", 0) + 1
-                else:
-                    bad("costIV raised", error=short_exc(e), tb=tb_tail(e))
+        if c.kind in ("Poisson", "Gamma", "NegBinom") and np.min(yhat) <= 1e-6:
+            continue
+        exp = LC.ref_cost(c, yhat)
+        g = float(np.sum(np.abs(RL.dcost(c.kind, c.y, yhat, c.spread, c.weights))))
+        tol = 1e-6 * (1 + abs(exp)) + g * tol_x
+        arg = np.array(LC.free_theta(c, thp) + [xp[i] for i in sidx], dtype=float)
+        try:
+            with contextlib.redirect_stdout(io.StringIO()), np.errstate(all="ignore"):
+                got = obj.costIV(arg)
+            counters["costIV_checks"] += 1
+            if not abs(float(got) - exp) <= tol:
+                bad("costIV differs from the loss of the solution started at the supplied initial values", call=label, got=float(got), expected=exp,
+                    tolerance=tol, target_state=c.target_state, target_param=c.target_param)
+            with contextlib.redirect_stdout(io.StringIO()), np.errstate(all="ignore"):
+                resIV = np.asarray(obj.residualIV(arg), dtype=float)
+            expres = (c.y - yhat) * (c.weights if c.weights is not None else 1.0)
+            expres = expres[:, 0] if p == 1 else expres
+            counters["residualIV_checks"] = counters.get("residualIV_checks", 0) + 1
+            if resIV.shape != expres.shape or not np.all(np.abs(resIV - expres) <= (float(np.max(c.weights)) if c.weights is not None else 1.0) * tol_x + 1e-12):
+                bad("residualIV differs from data minus the ODE solution started at the supplied initial values", call=label)
+        except Exception as e:
+            if type(e).__name__ == "InputError" and "same length as the number of parameters" in str(e):
+                # explicit refusal of an ambiguous length (len(target_param) + number of free states == nP): an honest refusal, not a wrong value
+                counters["costIV_refused_ambiguous_length"] = counters.get("costIV_refused_ambiguous_length", 0) + 1
+                arg = None
+                break
+            bad("costIV / residualIV raised", call=label, error=short_exc(e), tb=tb_tail(e))
+            arg = None
+            break
+    if arg is not None and exp is not None and not wit:
+        try:
+            # ---- the loss object must not share memory with the caller's data: the caller scribbles over the vector it passed to
+            # costIV; cost(theta) must still be the loss for initial values that were actually supplied (the ones given to costIV, or
+            # the constructor's), never something derived from the scribble
+            th_last = thB
+            arg[:] = arg * 3.0 + 1.0
+            free_last = np.array(LC.free_theta(c, th_last), dtype=float)
+            with contextlib.redirect_stdout(io.StringIO()), np.errstate(all="ignore"):
+                again = float(obj.cost(free_last))
+            counters["aliasing_checks"] = counters.get("aliasing_checks", 0) + 1
+            r0 = LC.ref_solution(c, theta=th_last, crosscheck=False, amplification=False)
+            ok_b = abs(again - exp) <= tol
+            ok_0 = False
+            exp0 = None
+            if r0.ok:
+                exp0 = LC.ref_cost(c, r0.x[:, c.obs_idx])
+                ok_0 = abs(again - exp0) <= 1e-6 * (1 + abs(exp0)) + float(np.sum(np.abs(RL.dcost(c.kind, c.y, r0.x[:, c.obs_idx], c.spread, c.weights)))) * tol_x
+            if not (ok_b or ok_0):
+                bad("after the caller overwrote the vector it had passed to costIV, cost(theta) is the loss for neither the supplied nor the "
+                    "original initial values (the loss object aliases caller memory)", got=again, expected_for_supplied_x0=exp, expected_for_original_x0=exp0)
+        except Exception as e:
+            bad("cost raised after costIV", error=short_exc(e), tb=tb_tail(e))
     # ---- caller-owned inputs are never modified, and a sibling object built from the same x0 array still sees the original values
     counters["input_mutation_checks"] = counters.get("input_mutation_checks", 0) + 1
     if not np.array_equal(c.x0_array, np.array(c.x0, dtype=float)):
